@@ -25,6 +25,7 @@ type Plan struct {
 	Windows   bool   `json:"windows"`   // canonical timing classes (in phase / first block after)
 	AccuseAny bool   `json:"accuseAny"` // Byzantine accusations/apologies may name Byzantine keypers too
 	MaxReload int    `json:"maxReload"` // honest keypers that re-create their in-memory state once during the run
+	MaxLag    int    `json:"maxLag"`    // "lag" ops: an honest keyper skips a sync and catches up on several blocks later
 	Simulate  int    `json:"simulate"`  // >0: random behaviours instead of exhaustive search
 	MaxBeh    int    `json:"maxBeh"`    // replay at most that many behaviours (0 = all)
 }
@@ -48,9 +49,9 @@ func (p Plan) mcFiles() (string, map[string][]byte, string) {
 	mod := "MCgen_dkg_" + strings.ReplaceAll(p.Name, "-", "_")
 	body := fmt.Sprintf("---- MODULE %s ----\nEXTENDS DKGMC\ncByz == %s\n====\n", mod, setText(p.Cfg.Byz))
 	inv := "INVARIANT C07_Spec\nINVARIANT Agreement\nINVARIANT EmitFinal\n"
-	cfg := fmt.Sprintf("CONSTANTS\n N = %d\n T = %d\n Byz <- cByz\n PhaseLen = %d\n MaxRej = %d\n Emit = TRUE\n AccuseAny = %s\n Windows = %s\n Partial = %s\n MaxReload = %d\n"+
+	cfg := fmt.Sprintf("CONSTANTS\n N = %d\n T = %d\n Byz <- cByz\n PhaseLen = %d\n MaxRej = %d\n Emit = TRUE\n AccuseAny = %s\n Windows = %s\n Partial = %s\n MaxReload = %d\n MaxLag = %d\n"+
 		"SPECIFICATION Spec\n%sVIEW View\nCHECK_DEADLOCK FALSE\n",
-		p.Cfg.N, p.Cfg.T, p.Cfg.PhaseLen, p.MaxRej, boolText(p.AccuseAny), boolText(p.Windows), boolText(p.Partial), p.MaxReload, inv)
+		p.Cfg.N, p.Cfg.T, p.Cfg.PhaseLen, p.MaxRej, boolText(p.AccuseAny), boolText(p.Windows), boolText(p.Partial), p.MaxReload, p.MaxLag, inv)
 	return mod, map[string][]byte{mod + ".tla": []byte(body)}, cfg
 }
 
@@ -456,8 +457,8 @@ func plansC07(thorough bool) []Plan {
 		return []Plan{
 			{Name: "n3-honest", Cfg: Cfg{N: 3, T: 2, Byz: []int{}, PhaseLen: 2}, Windows: true, MaxReload: 1, MaxBeh: 40},
 			{Name: "n3-byz3", Cfg: Cfg{N: 3, T: 2, Byz: []int{3}, PhaseLen: 2}, Windows: true, MaxBeh: 140},
-			{Name: "n3-sim", Cfg: Cfg{N: 3, T: 2, Byz: []int{2}, PhaseLen: 3}, Partial: true, MaxRej: 2, AccuseAny: true, MaxReload: 2, Simulate: 16},
-			{Name: "n4-sim", Cfg: Cfg{N: 4, T: 2, Byz: []int{2, 4}, PhaseLen: 2}, Partial: true, MaxRej: 2, AccuseAny: true, MaxReload: 2, Simulate: 20},
+			{Name: "n3-sim", Cfg: Cfg{N: 3, T: 2, Byz: []int{2}, PhaseLen: 3}, Partial: true, MaxRej: 2, AccuseAny: true, MaxReload: 2, MaxLag: 3, Simulate: 16},
+			{Name: "n4-sim", Cfg: Cfg{N: 4, T: 2, Byz: []int{2, 4}, PhaseLen: 2}, Partial: true, MaxRej: 2, AccuseAny: true, MaxReload: 2, MaxLag: 3, Simulate: 20},
 		}
 	}
 	return []Plan{
@@ -466,10 +467,10 @@ func plansC07(thorough bool) []Plan {
 		{Name: "n3-byz3", Cfg: Cfg{N: 3, T: 2, Byz: []int{3}, PhaseLen: 2}, Windows: true, Partial: true, MaxBeh: 3000},
 		{Name: "n3-byz1-rej", Cfg: Cfg{N: 3, T: 2, Byz: []int{1}, PhaseLen: 2}, Windows: true, MaxRej: 1, MaxBeh: 1500},
 		{Name: "n3-t3", Cfg: Cfg{N: 3, T: 3, Byz: []int{}, PhaseLen: 2}, Windows: true, MaxBeh: 200},
-		{Name: "n3-sim", Cfg: Cfg{N: 3, T: 2, Byz: []int{2}, PhaseLen: 3}, Partial: true, MaxRej: 2, AccuseAny: true, MaxReload: 2, Simulate: 400},
-		{Name: "n4-sim", Cfg: Cfg{N: 4, T: 2, Byz: []int{2, 4}, PhaseLen: 2}, Partial: true, MaxRej: 2, AccuseAny: true, MaxReload: 2, Simulate: 400},
-		{Name: "n4-t3-sim", Cfg: Cfg{N: 4, T: 3, Byz: []int{1}, PhaseLen: 3}, Partial: true, MaxRej: 2, AccuseAny: true, MaxReload: 2, Simulate: 300},
-		{Name: "n5-sim", Cfg: Cfg{N: 5, T: 3, Byz: []int{1, 4}, PhaseLen: 2}, Partial: true, MaxRej: 2, AccuseAny: true, MaxReload: 2, Simulate: 300},
+		{Name: "n3-sim", Cfg: Cfg{N: 3, T: 2, Byz: []int{2}, PhaseLen: 3}, Partial: true, MaxRej: 2, AccuseAny: true, MaxReload: 2, MaxLag: 3, Simulate: 400},
+		{Name: "n4-sim", Cfg: Cfg{N: 4, T: 2, Byz: []int{2, 4}, PhaseLen: 2}, Partial: true, MaxRej: 2, AccuseAny: true, MaxReload: 2, MaxLag: 3, Simulate: 400},
+		{Name: "n4-t3-sim", Cfg: Cfg{N: 4, T: 3, Byz: []int{1}, PhaseLen: 3}, Partial: true, MaxRej: 2, AccuseAny: true, MaxReload: 2, MaxLag: 3, Simulate: 300},
+		{Name: "n5-sim", Cfg: Cfg{N: 5, T: 3, Byz: []int{1, 4}, PhaseLen: 2}, Partial: true, MaxRej: 2, AccuseAny: true, MaxReload: 2, MaxLag: 3, Simulate: 300},
 	}
 }
 
